@@ -198,7 +198,9 @@ def addresses():
 
 def sparse():
     for t in ("hex", "bin", "elf", "srec", "wdc", "uf2", "amiga", "macho"):
-        for hi in ("0x00100000", "0x40000000"):
+        # formats that write the gap out (bin, elf, ...) get the small span only: a gigabyte of output is their design, and how far
+        # they get before the output limit stops them would depend on the machine's speed
+        for hi in (("0x00100000", "0x40000000") if t in ("hex", "srec", "wdc") else ("0x00100000",)):
             yield ("sparse|%s|%s" % (t, hi), ["-type", t, "-o", "out.x", "in.asm"], {"in.asm": ".msp430\n.org 0x100\n.db 9\n.org %s\n.db 1\n" % hi})
 
 
